@@ -9,7 +9,7 @@ from . import trajgen as G
 
 RULE = ("trajectories ending in 0..4 vertical descending segments (constant, linear or monotone well-conditioned cubic in "
         "altitude, horizontal jitter on both sides of the threshold) preceded by arbitrary flight; thresholds >= 0 around the "
-        "jitter; preferred descents: inside the run, equal to the run, larger, 0, negative, tiny (1e-10, 1e-5), NaN, infinite. "
+        "jitter; preferred descents: inside the run, exactly the descent of the run, larger, 0, negative, tiny (1e-10, 1e-5), NaN, infinite. "
         "Non-trivial = a non-empty run and a positive finite descent.")
 EXPLANATION = ("answer kinds: a segment boundary (exact, in ms) or an instant inside a segment (certified root box widened by 1% of "
                "the segment for cubics, 1e-5 relative otherwise); statistics interface = proposal for valid parameters; the exact-"
@@ -36,9 +36,15 @@ def cases(rng, tier):
         for s in tr["segs"]:
             zs += s["z"]
         total_drop = abs(zs[-1] - max(zs)) * scale + 1
-        for _ in range(4):
+        run_drop = S.landing_traj.last_run_drop * scale
+        for k4 in range(4):
             r = rng.random()
-            if r < 0.55:
+            if k4 == 0 and run_drop > 0 and i % 3 == 0 and all(len(sg["z"]) <= 1 for sg in tr["segs"]):
+                # exactly the descent of the generated run (an integer, exact in binary32): the start of the run is
+                # expected, hover segments at its start included.  Only for trajectories without a cubic altitude segment:
+                # there every altitude the code computes is exact, so which side of the comparison it falls on is not rounding
+                d = f32(run_drop)
+            elif r < 0.55:
                 d = f32(rng.uniform(0, total_drop))
             elif r < 0.7:
                 d = f32(total_drop * rng.choice([1.0, 1.5, 10]))
@@ -96,6 +102,18 @@ def compare(case, om, oi):
     # the property (exact arithmetic)
     spec = m[2][5:]
     ok2, desc2 = _inside(spec, land, bts)
+    if not ok2 and spec.split(":")[0] in ("at", "in") and d is not None and d > Fraction(1, 100):
+        # the run descends by exactly the preferred descent: the property's second and third cases meet there (start of
+        # the run = the instant at which the remaining descent equals the preferred one), and which side of the
+        # comparison the binary32 altitudes fall on is rounding; a leading hover is then a plateau of that altitude.
+        # Accept any instant of the run at which the remaining descent is the preferred one (the relational reading).
+        # (the implementation's answer already equals the binary32-faithful model's, checked above)
+        if 0 <= land <= total + Fraction(1, 10 ** 6):
+            z_t, z_end = G.altitude_at(bts, land), G.altitude_at(bts, total)
+            scale, start, segs = G.decode(bts)
+            zmax = max([abs(start[2])] + [abs(p) for _, axes in segs for p in axes[2]]) + 1
+            if abs(z_t - z_end - d) <= zmax / (1 << 18) + abs(d) / (1 << 20):
+                return None
     if not ok2:
         return "D9: property (exact arithmetic) expects %s, impl=%s [binary32 absorbs the preferred descent]" % (desc2, float(land))
     return None
